@@ -21,8 +21,13 @@ fam("fe_normalize", FE, "h_fe_normalize", ["secp256k1_fe_impl_normalize"], w64_d
 fam("fe_normalize_var", FE, "h_fe_normalize_var", ["secp256k1_fe_impl_normalize_var"], w64_defs=M31)
 fam("fe_normalize_weak", FE, "h_fe_normalize_weak", ["secp256k1_fe_impl_normalize_weak"], w64_defs=M31)
 fam("fe_ntz", FE, "h_fe_ntz", ["secp256k1_fe_impl_normalizes_to_zero", "secp256k1_fe_impl_normalizes_to_zero_var"], w64_defs=M31)
-UNITS.append(U("C05.fe_normalize_m32.W64", ["C05"], FE, "h_fe_normalize", cfg="W64", tier="thorough", functions=["secp256k1_fe_impl_normalize"], replay=False,
-               note="EXPECTED TO FAIL until fixed/accepted: 10x26 normalize at magnitude 32 (uint32 wrap in t0 += x*0x3D1 / t1 += x<<6)"))
+# known finding F2: one failing unit per function, tier thorough, obligation names tagged "[10x26,m=32]"
+M32 = ["FE_M32_FINDING=1"]
+for _n, _e, _f in (("fe_normalize", "h_fe_normalize", ["secp256k1_fe_impl_normalize"]), ("fe_normalize_var", "h_fe_normalize_var", ["secp256k1_fe_impl_normalize_var"]),
+                   ("fe_normalize_weak", "h_fe_normalize_weak", ["secp256k1_fe_impl_normalize_weak"]),
+                   ("fe_ntz", "h_fe_ntz", ["secp256k1_fe_impl_normalizes_to_zero", "secp256k1_fe_impl_normalizes_to_zero_var"])):
+    UNITS.append(U("C05.%s_m32.W64" % _n, ["C05"], FE, _e, cfg="W64", tier="thorough", defs=M32, functions=_f, replay=False,
+                   note="KNOWN FINDING F2 - expected to fail: 10x26 normalize family at magnitude 32 (uint32 wrap in t0 += x*0x3D1 / t1 += x<<6)"))
 fam("fe_small", FE, "h_fe_small", ["secp256k1_fe_impl_set_int", "secp256k1_fe_impl_add_int", "secp256k1_fe_impl_is_zero", "secp256k1_fe_impl_is_odd", "secp256k1_fe_impl_cmov"])
 fam("fe_cmp", FE, "h_fe_cmp", ["secp256k1_fe_impl_cmp_var"])
 fam("fe_b32", FE, "h_fe_b32", ["secp256k1_fe_impl_set_b32_mod", "secp256k1_fe_impl_set_b32_limit", "secp256k1_fe_impl_get_b32"])
@@ -107,9 +112,9 @@ UNITS.append(U("C05.sc_reduce_512.W64", ["C05"], SM, "h_sc_reduce_512", cfg="W64
                tier="thorough", timeout=3600, replay=False))
 fam("fe_signed", FE, "h_fe_signed", ["secp256k1_fe_to_signed62", "secp256k1_fe_from_signed62", "secp256k1_scalar_to_signed62", "secp256k1_scalar_from_signed62", "secp256k1_fe_impl_get_bounds"], quick=False)
 UNITS.append(U("C05.sc_reduce_512_value", ["C05"], SM, "h_sc_reduce_512_value", functions=["secp256k1_scalar_reduce_512"],
-               tier="thorough", timeout=3600, replay=False, note="r == l mod n via three limb-wise folds; multiplications by the constant limbs of 2^256-n are real"))
+               tier="thorough", timeout=3600, replay=False, solver="cadical", note="r == l mod n via three limb-wise folds; multiplications by the constant limbs of 2^256-n are real"))
 UNITS.append(U("C05.sc_mul_512_value", ["C05"], SM, "h_sc_mul_512_value", verify=True, replace=UF, functions=["secp256k1_scalar_mul_512", "secp256k1_scalar_sqr_512"],
-               tier="thorough", timeout=3600, replay=False, note="schoolbook sum over the uninterpreted 64x64 multiplier"))
+               tier="thorough", timeout=3600, replay=False, solver="cadical", note="schoolbook sum over the uninterpreted 64x64 multiplier"))
 UNITS.append(U("C05.fe_mul_contract", ["C05"], FM, "h_fe_mul_contract", verify=True, enforce=["secp256k1_fe_mul"], replace=UF, functions=["secp256k1_fe_mul", "secp256k1_fe_impl_mul", "secp256k1_fe_mul_inner"],
                timeout=900, tier="quick", replay=False, note="magnitude contract used by the group units, enforced on the real wrapper"))
 UNITS.append(U("C05.fe_sqr_contract", ["C05"], FM, "h_fe_sqr_contract", verify=True, enforce=["secp256k1_fe_sqr"], replace=UF, functions=["secp256k1_fe_sqr", "secp256k1_fe_impl_sqr", "secp256k1_fe_sqr_inner"],
